@@ -430,3 +430,25 @@ scn(name="sum:int-index-0.ttm", func=TT + "sum", props=("C07",),
 _gi("tt3[None,a,b,c]", False, 3, VTuple((VNone(), UI("a"), UI("b"), UI("c"))), [("none",), ("int", "a"), ("int", "b"), ("int", "c")])
 _gi("tt3[a,b,c,None]", False, 3, VTuple((UI("a"), UI("b"), UI("c"), VNone())), [("int", "a"), ("int", "b"), ("int", "c"), ("none",)])
 _gi("tt2[a,None,b]", False, 2, VTuple((UI("a"), VNone(), UI("b"))), [("int", "a"), ("none",), ("int", "b")])
+
+
+# --------------------------------------------------------------------------- boundary instantiations of index arguments (first mode, repeated mode, empty selection)
+
+def _mprod_twice_expected(sit, out):
+    """mprod([F0, F1], [1, 1]) on an order-3 tensor: both factors act on mode 1, one after the other: (F1 F0 x)"""
+    x = make_tt(sit, "x", False, 3)
+    f0 = net.atom_tensor(sit.sp, "F0", [P.atom("L0"), mode_atom(sit, "N", "x", P.const(1))])
+    f1 = net.atom_tensor(sit.sp, "F1", [P.atom("L1"), P.atom("L0")])
+    return expr(sit, [(sit.core(x, 0), "amb"), (sit.core(x, 1), "bnc"), (sit.core(x, 2), "cpd"), (f0, "ln"), (f1, "kl")], ["m", "k", "p"])
+
+
+scn(name="mprod:single-mode0", func=TT + "mprod", props=("C09",),
+    args=lambda it: (make_tt(it, "x", False, 3), [_factor(it, 0, 0), VInt(ZERO)], {}),
+    check=closed_check(_mprod_expected(3, [0]), "mprod(F, 0)"))
+scn(name="mprod:repeated-mode", func=TT + "mprod", props=("C09",),
+    args=lambda it: (make_tt(it, "x", False, 3),
+                     [VList([_factor(it, 0, 1), VTensor(net.atom_tensor(it.sp, "F1", [P.atom("L1"), P.atom("L0")], tags=["new", "mode"]), "dtype:F")]),
+                      VList([VInt(P.const(1)), VInt(P.const(1))])], {}),
+    check=closed_check(_mprod_twice_expected, "mprod([F0, F1], [1, 1])"))
+scn(name="sum:empty-list", func=TT + "sum", props=("C07",),
+    args=lambda it: (make_tt(it, "x", False, 3), [VList([])], {}), check=closed_check(_sum_expected(False, 3, set()), "sum([])"))
